@@ -1,7 +1,7 @@
 #!/bin/sh
 # Rewrites the baselines one property at a time (run on a quiet machine), then runs every quick check.
 cd "$(dirname "$0")"
-props="${*:-C03 C04 C05 C06 C07 C08 C09 C11 C12 C13 C14 C15 C17 C18 C19 C20}"
+props="${*:-C03 C04 C05 C06 C07 C08 C09 C10 C11 C12 C13 C14 C15 C17 C18 C19 C20}"
 for p in $props; do
   echo "== baseline $p"; /usr/bin/time -f "%es" bin/vc check -prop $p -write-baseline 2>&1 | tail -12
 done
